@@ -109,7 +109,7 @@ class bspline(object):
             else:
                 raise ValueError('No information for bkpts.')
         imin = bkpt.argmin()
-        imax = bkpt.argmax()
+        imax = bkpt.size - 1 - bkpt[::-1].argmax()
         if x.min() < bkpt[imin]:
             warn('Lowest breakpoint does not cover lowest x value: changing.',
                  PydlutilsUserWarning)
